@@ -27,6 +27,8 @@ use tokio::{join, sync::broadcast};
 use tracing::{debug, error, info};
 
 pub use self::config::{Config, SyncStrategy};
+#[cfg(feature = "verif")]
+pub use self::config::{MergePolicy as VerifMergePolicy, MergeStrategy as VerifMergeStrategy};
 use self::{
     log::{LogDir, LogIterator, LogStatistics, LogWriter},
     utils::datafile_name,
@@ -261,6 +263,8 @@ impl Handle {
         let backoff = Backoff::new();
         loop {
             if let Some(reader) = self.readers.pop() {
+                #[cfg(feature = "verif")]
+                crate::verif::point("get:checked_out");
                 // Make a query with the key and return the context to the queue after we finish so
                 // other threads can make progress
                 let result = reader.get(key);
@@ -347,6 +351,8 @@ impl Writer {
     fn put(&mut self, key: Bytes, value: Bytes) -> Result<(), Error> {
         // Write to disk
         let keydir_entry = self.write(utils::timestamp(), key.clone(), Some(value))?;
+        #[cfg(feature = "verif")]
+        crate::verif::point("put:before_publish");
         // If we overwrite an existing value, update the storage statistics
         if let Some(prev_keydir_entry) = self.ctx.keydir.insert(key, keydir_entry) {
             self.ctx
@@ -366,6 +372,8 @@ impl Writer {
     fn delete(&mut self, key: Bytes) -> Result<bool, Error> {
         // Write to disk
         self.write(utils::timestamp(), key.clone(), None)?;
+        #[cfg(feature = "verif")]
+        crate::verif::point("delete:before_publish");
         // If we overwrite an existing value, update the storage statistics
         match self.ctx.keydir.remove(&key) {
             Some((_, prev_keydir_entry)) => {
@@ -479,6 +487,8 @@ impl Writer {
                     )?
                 };
 
+                #[cfg(feature = "verif")]
+                crate::verif::point("merge:after_copy");
                 // update keydir so it points to the merge data file
                 keydir_entry.fileid = merge_fileid;
                 keydir_entry.len = nbytes;
@@ -512,6 +522,8 @@ impl Writer {
 
         // Remove stale files from system and storage statistics
         for id in &fileids_to_merge {
+            #[cfg(feature = "verif")]
+            crate::verif::point("merge:before_unlink");
             self.ctx.stats.remove(id);
             if let Err(e) = fs::remove_file(utils::hintfile_name(path, *id)) {
                 if e.kind() != io::ErrorKind::NotFound {
@@ -559,6 +571,8 @@ impl Reader {
     fn get(&self, key: Bytes) -> Result<Option<Bytes>, Error> {
         match self.ctx.keydir.get(&key) {
             Some(keydir_entry) => {
+                #[cfg(feature = "verif")]
+                crate::verif::point("get:after_lookup");
                 // SAFETY: We have taken `keydir_entry` from KeyDir which is ensured to point to
                 // valid data file positions. Thus we can be confident that the Mmap won't be
                 // mapped to an invalid segment.
@@ -791,6 +805,68 @@ where
         }
     }
     Ok(())
+}
+
+/// Read-only snapshot of the in-memory state, for the verification harness.
+#[cfg(feature = "verif")]
+#[derive(Debug, Default)]
+pub struct VerifDump {
+    /// (key, fileid, pos, len, tstamp) for every KeyDir entry, in unspecified order
+    pub keydir: Vec<(Bytes, u64, u64, u64, i64)>,
+    /// (fileid, live_keys, dead_keys, dead_bytes) for every statistics entry, in unspecified order
+    pub stats: Vec<(u64, u64, u64, u64)>,
+    /// ID of the active file
+    pub active_fileid: u64,
+    /// Bytes appended to the active file
+    pub written_bytes: u64,
+}
+
+#[cfg(feature = "verif")]
+impl Handle {
+    /// Run one merge pass now, whatever the policy and triggers say.
+    pub fn verif_merge(&self) -> Result<(), Error> {
+        self.merge()
+    }
+
+    /// Force the active file to stable storage, as the interval sync task does.
+    pub fn verif_sync(&self) -> Result<(), Error> {
+        self.sync()
+    }
+
+    /// Evaluate the merge trigger the background task evaluates.
+    pub fn verif_can_merge(&self) -> bool {
+        self.ctx.can_merge()
+    }
+
+    /// The files a merge would include now.
+    pub fn verif_fileids_to_merge(&self) -> Result<Vec<u64>, Error> {
+        Ok(self
+            .ctx
+            .fileids_to_merge(self.ctx.conf.path.as_path())?
+            .into_iter()
+            .collect())
+    }
+
+    /// Snapshot the index, the statistics and the writer position.
+    pub fn verif_dump(&self) -> VerifDump {
+        let writer = self.writer.lock();
+        VerifDump {
+            keydir: self
+                .ctx
+                .keydir
+                .iter()
+                .map(|e| (e.key().clone(), e.fileid, e.pos, e.len, e.tstamp))
+                .collect(),
+            stats: self
+                .ctx
+                .stats
+                .iter()
+                .map(|e| (*e.key(), e.live_keys, e.dead_keys, e.dead_bytes))
+                .collect(),
+            active_fileid: writer.active_fileid,
+            written_bytes: writer.written_bytes,
+        }
+    }
 }
 
 #[derive(Debug)]
